@@ -861,6 +861,52 @@ func (w *dmWorld) apply(s Step) {
 		w.Take()
 	case "udp":
 		w.inject(false, s.A, s.B, s.C, int(s.D))
+	case "racereg":
+		// two endpoints are registered under one and the same identity at the same time (two goroutines):
+		// whoever comes second is refused - never two owners of one identity
+		id := stack.TransportEndpointID{LocalPort: dmPorts[3], LocalAddress: dmLocal[1+s.A%2], RemoteAddress: dmRAddr[s.B%3], RemotePort: dmRPort[s.B%3]}
+		free := true
+		for _, o := range w.socks {
+			if !o.closed && o.fake != nil && o.laddr == id.LocalAddress && o.raddr == id.RemoteAddress && o.rport == id.RemotePort {
+				free = false
+			}
+		}
+		if !free {
+			break
+		}
+		var errs [2]*tcpip.Error
+		eps := [2]*fakeEP{{}, {}}
+		done := make(chan int, 2)
+		for i := 0; i < 2; i++ {
+			i := i
+			go func() {
+				errs[i] = w.S.S.RegisterTransportEndpoint(0, []tcpip.NetworkProtocolNumber{ipv4.ProtocolNumber}, udp.ProtocolNumber, id, eps[i])
+				done <- i
+			}()
+		}
+		w.Settle()
+		<-done
+		<-done
+		w.Probes["registrations_racing_for_one_identity"]++
+		nok := 0
+		for i := 0; i < 2; i++ {
+			if errs[i] == nil {
+				nok++
+			}
+		}
+		switch {
+		case nok == 2:
+			w.demuxFail("duplicate-registration-accepted", "two endpoints registered at the same time under the identity (% x:%d, % x:%d) were both accepted", []byte(id.LocalAddress), id.LocalPort, []byte(id.RemoteAddress), id.RemotePort)
+		case nok == 0:
+			w.demuxFail("registration-refused", "two endpoints raced for the free identity (% x:%d, % x:%d) and both were refused", []byte(id.LocalAddress), id.LocalPort, []byte(id.RemoteAddress), id.RemotePort)
+		}
+		// the winner stays as one more endpoint of the scenario
+		for i := 0; i < 2; i++ {
+			if errs[i] == nil {
+				w.socks = append(w.socks, &dmSock{laddr: id.LocalAddress, lport: id.LocalPort, raddr: id.RemoteAddress, rport: id.RemotePort, fake: eps[i]})
+				break
+			}
+		}
 	case "reconnect":
 		// a connected UDP socket is connected again - to the peer it already has, or to another one. Whatever
 		// the call returns, the socket keeps the port it holds (judged by the binds that follow)
@@ -929,6 +975,9 @@ func (w *dmWorld) next() Step {
 	weights := []int{6, 1, 10, 0, 1, 1, 1, 1}
 	if w.cfg.Binds {
 		weights = []int{8, 5, 3, 0, 1, 4, 1, 1}
+	}
+	if len(w.socks) < 10 && r.Chance(0.03) {
+		return Step{Op: "racereg", A: r.Intn(2), B: r.Intn(3)}
 	}
 	if len(w.socks) > 0 && r.Chance(0.05) {
 		return Step{Op: "reconnect", A: r.Intn(len(w.socks)), B: r.Intn(3), C: r.Intn(2)}
